@@ -6,7 +6,7 @@ From Coq Require Import String.
 From Coq Require Import List Bool Arith NArith ZArith.
 Import ListNotations.
 From Coq Require Import Lia.
-Require Import Str Rx RxFacts G_rx TextModel TextProofs.
+Require Import Str Rx RxFacts RxSub RxSubFacts G_rx TextModel TextProofs TextProofs2.
 
 Theorem C12_one_line_out_per_line_in :
   forall orc lines f f' outs, anonymize_io orc f lines = Done (f', outs) -> length outs = length lines.
@@ -16,6 +16,27 @@ Theorem C12_a_prefix_of_the_text_is_processed_independently_of_what_follows :
   forall orc l1 l2 f f' outs, anonymize_io orc f (l1 ++ l2) = Done (f', outs) ->
   exists f1, anonymize_io orc f l1 = Done (f1, firstn (length l1) outs) /\ anonymize_io orc f1 l2 = Done (f', skipn (length l1) outs).
 Proof. exact anonymize_io_prefix. Qed.
+
+(* the secrets stage and the sensitive-word stage return the line's own leading whitespace, a body, the line's own trailing whitespace *)
+Theorem C12_secrets_stage_keeps_leading_and_trailing_whitespace : forall orc reserved salt line lookup out lookup',
+  replace_matching_item orc reserved salt line lookup = Done (out, lookup') ->
+  exists body, out = (fst (fst (split_line line)) ++ body ++ snd (split_line line))%list.
+Proof. exact C12_secrets_stage_keeps_the_edges. Qed.
+
+Theorem C12_words_stage_keeps_leading_and_trailing_whitespace : forall a line out,
+  anonymize_words_line a line = Done out ->
+  out = line \/ exists body, out = (fst (fst (split_line line)) ++ body ++ snd (split_line line))%list.
+Proof. exact C12_words_stage_keeps_the_edges. Qed.
+
+Theorem C12_the_edges_are_the_lines_own : forall line,
+  (exists rest, line = (fst (fst (split_line line)) ++ rest)%list) /\ forallb is_space (fst (fst (split_line line))) = true /\
+  (exists front, line = (front ++ snd (split_line line))%list).
+Proof. exact split_line_edges. Qed.
+
+(* every regex substitution (IP stages, AS numbers, words inside a token) copies the text between the replaced spans verbatim *)
+Theorem C12_substitution_copies_unmatched_text : forall (St : Type) (s : list chr) (r : re) (cb : St -> nat -> nat -> caps -> St * list chr),
+  nullable r = false -> forall fuel st i, snd (sub_loop s fuel r cb st i) = stitch s i (finditer s fuel r i) (sub_reps s fuel r cb st i).
+Proof. intros St s r cb. exact (sub_loop_is_stitch s r cb). Qed.
 
 Theorem C12_ipv4_replacement_never_touches_whitespace :
   forall (s : list chr) i c j c' p x, In (j, c') (ms s IPV4_RX i c) -> (i <= p < j)%nat -> nth_error s p = Some x -> is_space x = false.
@@ -28,4 +49,8 @@ Qed.
 
 Print Assumptions C12_one_line_out_per_line_in.
 Print Assumptions C12_a_prefix_of_the_text_is_processed_independently_of_what_follows.
+Print Assumptions C12_secrets_stage_keeps_leading_and_trailing_whitespace.
+Print Assumptions C12_words_stage_keeps_leading_and_trailing_whitespace.
+Print Assumptions C12_the_edges_are_the_lines_own.
+Print Assumptions C12_substitution_copies_unmatched_text.
 Print Assumptions C12_ipv4_replacement_never_touches_whitespace.
